@@ -162,3 +162,67 @@ WEXPORT int64_t w_sfd_open(uint8_t* h, const uint8_t* path, int as_string) {
 WEXPORT void w_sfd_close(uint8_t* h) { reinterpret_cast<scoped_fd*>(h)->close(); }
 WEXPORT int64_t w_sfd_get(uint8_t* h) { return static_cast<int>(*reinterpret_cast<scoped_fd*>(h)); }
 WEXPORT int64_t w_sfd_is_open(uint8_t* h) { return reinterpret_cast<scoped_fd*>(h)->is_open() ? 1 : 0; }
+
+// ---- whole files, directories, trees (harnesses h_file.c, h_lsdir.c, h_rmtree.c, h_ftype.c). Paths arrive as C strings.
+#define W_CANNOT_STAT (-22)
+#define FS2_CATCH                                                \
+  catch (const phosg::cannot_stat_file&) { return W_CANNOT_STAT; } \
+  FS_CATCH
+static inline std::string w_cstr(const uint8_t* p) { return std::string(reinterpret_cast<const char*>(p)); }
+
+WEXPORT int64_t w_save_file(const uint8_t* path, const uint8_t* data, size_t n, int as_string) {
+  try {
+    if (as_string) phosg::save_file(w_cstr(path), w_str(data, n));
+    else phosg::save_file(w_cstr(path), static_cast<const void*>(data), n);
+    return 0;
+  }
+  FS2_CATCH
+}
+WEXPORT int64_t w_load_file(const uint8_t* path, uint8_t* out, size_t cap) {
+  try { return w_copy_out(phosg::load_file(w_cstr(path)), out, cap); }
+  FS2_CATCH
+}
+// names are returned as records of `rec` bytes: {length, first rec-1 bytes}; return value = number of names
+template <typename C>
+static inline int64_t w_names_out(const C& names, uint8_t* out, size_t nrec, size_t rec) {
+  size_t k = 0;
+  for (const std::string& s : names) {
+    if (k < nrec) {
+      out[k * rec] = static_cast<uint8_t>(s.size() < 255 ? s.size() : 255);
+      for (size_t i = 0; i + 1 < rec; i++) out[k * rec + 1 + i] = (i < s.size()) ? static_cast<uint8_t>(s[i]) : 0;
+    }
+    k++;
+  }
+  return static_cast<int64_t>(k);
+}
+WEXPORT int64_t w_list_directory(const uint8_t* path, uint8_t* out, size_t nrec, size_t rec) {
+  try { return w_names_out(phosg::list_directory(w_cstr(path)), out, nrec, rec); }
+  FS2_CATCH
+}
+WEXPORT int64_t w_list_directory_sorted(const uint8_t* path, uint8_t* out, size_t nrec, size_t rec) {
+  try { return w_names_out(phosg::list_directory_sorted(w_cstr(path)), out, nrec, rec); }
+  FS2_CATCH
+}
+WEXPORT int64_t w_unlink(const uint8_t* path, int recursive) {
+  try { phosg::unlink(w_cstr(path), recursive != 0); return 0; }
+  FS2_CATCH
+}
+// 0 isfile 1 isdir 2 lisfile 3 lisdir 4 islink (path forms: a failing stat means "no"); 5 stat 6 lstat 7 fstat(fd = path[0]):
+// out[0] = st_mode, out[1] = st_size, cannot_stat_file when the call fails
+WEXPORT int64_t w_ftype(const uint8_t* path, int which, uint64_t* out) {
+  try {
+    switch (which) {
+      case 0: return phosg::isfile(w_cstr(path)) ? 1 : 0;
+      case 1: return phosg::isdir(w_cstr(path)) ? 1 : 0;
+      case 2: return phosg::lisfile(w_cstr(path)) ? 1 : 0;
+      case 3: return phosg::lisdir(w_cstr(path)) ? 1 : 0;
+      case 4: return phosg::islink(w_cstr(path)) ? 1 : 0;
+      default: {
+        struct stat st = (which == 5) ? phosg::stat(w_cstr(path)) : (which == 6) ? phosg::lstat(w_cstr(path)) : phosg::fstat(static_cast<int>(path[0]));
+        out[0] = st.st_mode; out[1] = static_cast<uint64_t>(st.st_size);
+        return (phosg::isfile(st) ? 1 : 0) | (phosg::isdir(st) ? 2 : 0) | (phosg::islink(st) ? 4 : 0);
+      }
+    }
+  }
+  FS2_CATCH
+}
